@@ -89,6 +89,9 @@ func inBaseline(o *vc.Obligation) bool {
 	switch {
 	case o.Kind == "safe", o.Kind == "unreachable":
 		return false
+	case o.Kind == "frame", strings.HasSuffix(o.Kind, ".frame"):
+		// generated per region written: a region that is no longer written needs no frame obligation
+		return false
 	case strings.HasPrefix(o.Kind, "pre"), strings.HasPrefix(o.Kind, "lock"):
 		return false
 	}
